@@ -148,15 +148,6 @@ pub(super) fn derive_schema(input: TokenStream) -> syn::Result<TokenStream> {
                         (name, name_span) = (rename.clone(), span);
                     }
 
-                    if let Some(schema_with) = &field_attrs.openapi.schema_with {
-                        let property_name = LitStr::new(&name, name_span);
-                        let schema_with = syn::parse_str::<Path>(schema_with)?;
-                        properties.push(quote! {
-                            schema = schema.property(#property_name, #schema_with());
-                        });
-                        continue
-                    }
-
                     let ty = &f.ty;
                     let inner_option = inner_Option(ty);
 
@@ -165,6 +156,17 @@ pub(super) fn derive_schema(input: TokenStream) -> syn::Result<TokenStream> {
                         || field_attrs.serde.default
                         || field_attrs.serde.skip_deserializing /* written, never read: filled by Default */
                         || field_attrs.serde.skip_serializing_if.is_some();
+
+                    if let Some(schema_with) = &field_attrs.openapi.schema_with {
+                        let property_name = LitStr::new(&name, name_span);
+                        let schema_with = syn::parse_str::<Path>(schema_with)?;
+                        properties.push(if is_optional_field {quote! {
+                            schema = schema.optional(#property_name, #schema_with());
+                        }} else {quote! {
+                            schema = schema.property(#property_name, #schema_with());
+                        }});
+                        continue
+                    }
 
                     let mut property_schema = {
                         if let Some(inner_option) = inner_option {quote! {
